@@ -3,10 +3,28 @@
 // the property statement; shares no arithmetic with the code: positions are sums of REAL node sizes.
 // Levels: leaves (DataSections) are level 0, the root is level `levels`.
 
-/// Sink::pos -- `file.tell()` (rule R3).  ASSUMED: the sink image is the whole file from offset 0 and the
-/// stream is positioned at its end (the writers only ever append before calling write_rtreeindex), so the
-/// position is the length of what has been written.  May fail (I/O); the image is unchanged either way.
-impl Sink {
+/// ASink: the destination `W: Write + Seek` of write_tree / write_rtreeindex (BufWriter<File> in the callers),
+/// as an append-only, FALLIBLE byte image (unit-local; the shared `Sink` never fails, so it would not notice a
+/// dropped `?`).  ASSUMED (R3/R11): NativeEndian == LittleEndian; a successful write appends exactly the
+/// little-endian encoding; a failed write promises nothing about the image; `tell()` (-> pos, rule R3): the image
+/// is the whole file from offset 0 and the stream is positioned at its end (the writers only ever append before
+/// calling write_rtreeindex), so the position is the length of what has been written.
+#[verifier::external_body]
+pub struct ASink { _p: u8 }
+impl ASink {
+    pub uninterp spec fn view(&self) -> Seq<u8>;
+    #[verifier::external_body]
+    pub fn put_u8(&mut self, v: u8) -> (r: Result<(), IoError>)
+        ensures r is Ok ==> final(self)@ == old(self)@.push(v) { unimplemented!() }
+    #[verifier::external_body]
+    pub fn put_u16(&mut self, v: u16) -> (r: Result<(), IoError>)
+        ensures r is Ok ==> final(self)@ == old(self)@ + le16(v) { unimplemented!() }
+    #[verifier::external_body]
+    pub fn put_u32(&mut self, v: u32) -> (r: Result<(), IoError>)
+        ensures r is Ok ==> final(self)@ == old(self)@ + le32(v) { unimplemented!() }
+    #[verifier::external_body]
+    pub fn put_u64(&mut self, v: u64) -> (r: Result<(), IoError>)
+        ensures r is Ok ==> final(self)@ == old(self)@ + le64(v) { unimplemented!() }
     #[verifier::external_body]
     pub fn pos(&mut self) -> (r: Result<u64, IoError>)
         ensures final(self)@ == old(self)@, r matches Ok(p) ==> p as int == old(self)@.len()
